@@ -57,8 +57,14 @@ def minimums(tier):
 
 
 def build_tree(rng, u, reg, root, i):
-    d = dirs.PelDir(os.path.join(root, "t%d" % i))
     ents = dirs.gen_dir_model(rng, u, rng.randrange(0, 9), reg=reg, bmc_style=rng.random() < 0.7, with_ps=0.7)
+    sub = "t%d" % i
+    if rng.random() < 0.3:
+        # the directory path itself contains an id (of one of the PELs, or of none): ids are looked for in file NAMES only
+        pid = "%08X" % (rng.choice(ents).pel.eid if ents and rng.random() < 0.5 else rng.randrange(1 << 32))
+        sub = os.path.join("event_%s_t%d" % (pid, i), "logs")
+        PATH_IDS[i] = pid
+    d = dirs.PelDir(os.path.join(root, sub))
     d.extend(ents)
     top = list(ents)
     # nested copies: same names and ids under archive/ and deeper
@@ -86,6 +92,9 @@ def build_tree(rng, u, reg, root, i):
             d.add(e)
             top.append(e)
     return d, ents, top
+
+
+PATH_IDS = {}
 
 
 def diff(a, b):
@@ -133,6 +142,8 @@ def run(spec, ctx):
         if e0:
             cands += ["%08X" % eid, ("%08x" % eid), "0x%08X" % eid]
         cands += ["%08X" % rng.randrange(1 << 32), "123", "%09X" % rng.randrange(1 << 36), "zzzzzzzz"]
+        if i in PATH_IDS:
+            cands += [PATH_IDS[i], PATH_IDS[i].lower()] * 2
         digits = [t.name for t in top if len(t.name) >= 12 and t.name[:12].isdigit()]
         if digits:
             # an id with leading zeros whose significant digits occur in some file name (time stamp part) - no file is stored under it
